@@ -37,6 +37,7 @@ from typing import Callable, Dict, List, Optional, Set
 
 _FUNCS = (ast.FunctionDef, ast.AsyncFunctionDef)
 _LEAVE = (ast.Return, ast.Raise, ast.Continue, ast.Break)
+_fresh = itertools.count()   # reset by normal_form: temporaries of all passes and rounds get distinct numbers
 
 
 def is_pure(e) -> bool:
@@ -226,9 +227,10 @@ def _first_comp(stmt):
 
 
 def _hoist_comprehensions(fn):
-    counter = itertools.count()
+    counter = _fresh
 
-    def build(comp, acc: str, k: int):
+    def build(comp, acc, k: int, into=None):
+        accx = (lambda: copy.deepcopy(into)) if into is not None else (lambda: ast.Name(id=acc, ctx=ast.Load()))
         ren = {}
         for gi, g in enumerate(comp.generators):
             for n in ast.walk(g.target):
@@ -243,10 +245,10 @@ def _hoist_comprehensions(fn):
             return node
 
         if isinstance(comp, ast.DictComp):
-            inner = [ast.Assign(targets=[ast.Subscript(value=ast.Name(id=acc, ctx=ast.Load()), slice=rn(comp.key), ctx=ast.Store())], value=rn(comp.value))]
+            inner = [ast.Assign(targets=[ast.Subscript(value=accx(), slice=rn(comp.key), ctx=ast.Store())], value=rn(comp.value))]
         else:
             meth = "append" if isinstance(comp, ast.ListComp) else "add"
-            inner = [ast.Expr(value=ast.Call(func=ast.Attribute(value=ast.Name(id=acc, ctx=ast.Load()), attr=meth, ctx=ast.Load()), args=[rn(comp.elt)], keywords=[]))]
+            inner = [ast.Expr(value=ast.Call(func=ast.Attribute(value=accx(), attr=meth, ctx=ast.Load()), args=[rn(comp.elt)], keywords=[]))]
         first = True
         for g in reversed(comp.generators):
             for cond in reversed(g.ifs):
@@ -260,6 +262,8 @@ def _hoist_comprehensions(fn):
             inner = [loop]
         init = {ast.ListComp: ast.List(elts=[], ctx=ast.Load()), ast.SetComp: ast.Call(func=ast.Name(id="set", ctx=ast.Load()), args=[], keywords=[]),
                 ast.DictComp: ast.Dict(keys=[], values=[])}[type(comp)]
+        if into is not None:
+            return inner
         return [ast.Assign(targets=[ast.Name(id=acc, ctx=ast.Store())], value=init)] + inner
 
     def f(stmts):
@@ -270,6 +274,12 @@ def _hoist_comprehensions(fn):
                 if c is None:
                     break
                 k = next(counter)
+                if isinstance(s, ast.Expr) and isinstance(s.value, ast.Call) and isinstance(s.value.func, ast.Attribute) and s.value.func.attr == "extend" \
+                        and s.value.args == [c] and not s.value.keywords and isinstance(c, ast.ListComp) and is_pure(s.value.func.value) \
+                        and not ({x.id for x in ast.walk(s.value.func.value) if isinstance(x, ast.Name)} & {x.id for x in ast.walk(c) if isinstance(x, ast.Name)} - {"self"}):
+                    out.extend(build(c, None, k, into=s.value.func.value))  # the elements go straight into the extended list
+                    s = None
+                    break
                 if isinstance(s, ast.Assign) and s.value is c and len(s.targets) == 1 and isinstance(s.targets[0], ast.Name) \
                         and not any(isinstance(x, ast.Name) and x.id == s.targets[0].id for x in ast.walk(c)):
                     out.extend(build(c, s.targets[0].id, k))  # `x = [...]`: the loop fills x itself
@@ -299,10 +309,30 @@ def _replace_node(root, old, new):
     return False
 
 
+def _expand_extend(fn):
+    counter = _fresh
+
+    def f(stmts):
+        out = []
+        for s in stmts:
+            c = s.value if isinstance(s, ast.Expr) else None
+            if isinstance(c, ast.Call) and isinstance(c.func, ast.Attribute) and c.func.attr == "extend" and len(c.args) == 1 and not c.keywords and is_pure(c.func.value) \
+                    and not isinstance(c.args[0], _COMPS + (ast.Starred,)):
+                v = f"_e{next(counter)}"
+                out.append(ast.For(target=ast.Name(id=v, ctx=ast.Store()), iter=c.args[0], orelse=[],
+                                   body=[ast.Expr(value=ast.Call(func=ast.Attribute(value=copy.deepcopy(c.func.value), attr="append", ctx=ast.Load()),
+                                                                 args=[ast.Name(id=v, ctx=ast.Load())], keywords=[]))]))
+                continue
+            out.append(s)
+        return out
+
+    _rewrite_bodies(fn, f)
+
+
 # ---- R8 -----------------------------------------------------------------------------------------------------------------
 
 def _expand_setdefault(fn):
-    counter = itertools.count()
+    counter = _fresh
 
     def f(stmts):
         out = []
@@ -359,6 +389,10 @@ def _first_use_is_early(stmt, name: str) -> Optional[ast.Name]:
             return ev(e.values[0]) and False
         if isinstance(e, (ast.Tuple, ast.List)):
             return all(ev(x) for x in e.elts)
+        if isinstance(e, ast.JoinedStr):
+            return all(ev(x) for x in e.values)
+        if isinstance(e, ast.FormattedValue):
+            return ev(e.value) and e.format_spec is None
         if isinstance(e, ast.Call):
             if not ev(e.func):
                 return False
@@ -382,6 +416,65 @@ def _first_use_is_early(stmt, name: str) -> Optional[ast.Name]:
     elif isinstance(stmt, (ast.For, ast.AsyncFor)):
         ev(stmt.iter)
     return hit[0] if hit else None
+
+
+def _early(stmt, node) -> bool:
+    """Is everything `stmt` evaluates before `node` pure?"""
+    state = {"hit": False}
+
+    def ev(e) -> bool:
+        if e is None:
+            return True
+        if e is node:
+            state["hit"] = True
+            return False
+        if isinstance(e, (ast.Name, ast.Constant)):
+            return True
+        if isinstance(e, (ast.Attribute, ast.Starred)):
+            return ev(e.value)
+        if isinstance(e, ast.Await):
+            ev(e.value)
+            return False
+        if isinstance(e, ast.Subscript):
+            return ev(e.value) and ev(e.slice)
+        if isinstance(e, ast.UnaryOp):
+            return ev(e.operand)
+        if isinstance(e, ast.BinOp):
+            return ev(e.left) and ev(e.right)
+        if isinstance(e, ast.Compare):
+            return ev(e.left) and all(ev(c) for c in e.comparators[:1])
+        if isinstance(e, ast.BoolOp):
+            ev(e.values[0])
+            return False
+        if isinstance(e, (ast.Tuple, ast.List, ast.Set)):
+            return all(ev(x) for x in e.elts)
+        if isinstance(e, ast.Dict):
+            return all(ev(k) and ev(v) for k, v in zip(e.keys, e.values))
+        if isinstance(e, ast.JoinedStr):
+            return all(ev(x) for x in e.values)
+        if isinstance(e, ast.FormattedValue):
+            return ev(e.value)
+        if isinstance(e, ast.Call):
+            if not ev(e.func):
+                return False
+            for a in e.args:
+                if not ev(a):
+                    return False
+            for k in e.keywords:
+                if not ev(k.value):
+                    return False
+            return False
+        return False
+
+    if isinstance(stmt, (ast.Return, ast.Expr, ast.Assign, ast.AugAssign)):
+        ev(stmt.value)
+    elif isinstance(stmt, ast.Raise):
+        ev(stmt.exc)
+    elif isinstance(stmt, (ast.If, ast.While)):
+        ev(stmt.test)
+    elif isinstance(stmt, (ast.For, ast.AsyncFor)):
+        ev(stmt.iter)
+    return state["hit"]
 
 
 def _inline_temps(fn):
@@ -610,7 +703,7 @@ def _inline_helpers(fn, helpers: Dict[str, ast.AST], in_class: bool):
     """helpers: name -> def node of functions the reference does not know (same module / same class)."""
     if not helpers:
         return
-    counter = itertools.count()
+    counter = _fresh
 
     def bind(call, h) -> Optional[Dict[str, ast.expr]]:
         a = h.args
@@ -646,7 +739,7 @@ def _inline_helpers(fn, helpers: Dict[str, ast.AST], in_class: bool):
 
     in_class_only = {k: bool(getattr(v, "_is_method", False)) for k, v in helpers.items()}
 
-    def prepared(h, call, awaited: bool):
+    def prepared(h, call, awaited: bool, dead_after=None):
         if isinstance(h, ast.AsyncFunctionDef) != awaited:
             return None
         if any(isinstance(x, (ast.Yield, ast.YieldFrom)) for x in ast.walk(h)) or any(isinstance(x, _FUNCS + (ast.Lambda,)) for b in h.body for x in ast.walk(b)):
@@ -664,13 +757,21 @@ def _inline_helpers(fn, helpers: Dict[str, ast.AST], in_class: bool):
         assigned = {n.id for n in ast.walk(g) if isinstance(n, ast.Name) and isinstance(n.ctx, ast.Store)}
         pre, sub = [], {}
         k = next(counter)
+        direct = {}
         for pname, arg in m.items():
             uses = sum(1 for n in ast.walk(g) if isinstance(n, ast.Name) and n.id == pname)
             if (is_pure(arg) and pname not in assigned) or uses == 0:
                 sub[pname] = arg
+            elif pname in assigned and isinstance(arg, ast.Name) and dead_after is not None and arg.id in dead_after:
+                direct[pname] = arg.id  # the helper works on the caller's own variable, which the call statement overwrites or abandons
+            elif pname not in assigned:
+                # the call is the whole value of its statement: its arguments are evaluated, in order, before the body runs
+                tname = f"_a{k}_{len(pre)}"
+                pre.append(ast.Assign(targets=[ast.Name(id=tname, ctx=ast.Store())], value=copy.deepcopy(arg)))
+                sub[pname] = ast.Name(id=tname, ctx=ast.Load())
             else:
-                return None  # binding an impure argument to a temporary would move its evaluation
-        ren = {n: f"_h{k}_{n}" for n in assigned}
+                return None
+        ren = {n: (direct[n] if n in direct else f"_h{k}_{n}") for n in assigned}
         body = [_subst(s, sub) for s in g.body]
         for s in body:
             for n in ast.walk(s):
@@ -698,15 +799,49 @@ def _inline_helpers(fn, helpers: Dict[str, ast.AST], in_class: bool):
 
     def f(stmts):
         out = []
-        for s in stmts:
+        stmts = list(stmts)
+        while stmts:
+            s = stmts.pop(0)
             done = False
+            # a helper call buried in a statement whose earlier sub-expressions are pure is first given a statement of its own
+            whole = getattr(s, "value", None) if isinstance(s, (ast.Assign, ast.Return, ast.Expr)) else None
+            whole = whole.value if isinstance(whole, ast.Await) else whole
+            hoisted = False
+            if isinstance(s, (ast.Assign, ast.Return, ast.Expr, ast.AugAssign, ast.If, ast.Raise)):
+                aw = {id(n.value): n for n in ast.walk(s) if isinstance(n, ast.Await) and isinstance(n.value, ast.Call)}
+                scope = [s.test] if isinstance(s, ast.If) else [s]
+                for c in [n for part in scope for n in ast.walk(part) if isinstance(n, ast.Call)]:
+                    h = target_of(c)
+                    if h is None or c is whole:
+                        continue
+                    g0 = copy.deepcopy(h)
+                    _strip(g0)
+                    if len(g0.body) == 1 and isinstance(g0.body[0], ast.Return):
+                        continue  # expression-level inlining below handles single-return helpers
+                    anchor = aw.get(id(c), c)
+                    if isinstance(h, ast.AsyncFunctionDef) != (id(c) in aw) or not _early(s, anchor):
+                        continue
+                    tname = f"_t{next(counter)}"
+                    _replace_node(s, anchor, ast.Name(id=tname, ctx=ast.Load()))
+                    stmts.insert(0, s)
+                    stmts.insert(0, ast.Assign(targets=[ast.Name(id=tname, ctx=ast.Store())], value=anchor))
+                    hoisted = True
+                    break
+            if hoisted:
+                continue
             # statement-level: the call is the whole value of an assignment / return / expression statement
             val = getattr(s, "value", None) if isinstance(s, (ast.Assign, ast.Return, ast.Expr)) else None
             awaited = isinstance(val, ast.Await)
             call = val.value if awaited else val
             if isinstance(call, ast.Call):
                 h = target_of(call)
-                body = prepared(h, call, awaited) if h is not None else None
+                if isinstance(s, ast.Return):
+                    dead = {a.id for a in call.args if isinstance(a, ast.Name)}
+                elif isinstance(s, ast.Assign) and len(s.targets) == 1 and isinstance(s.targets[0], ast.Name):
+                    dead = {s.targets[0].id}
+                else:
+                    dead = set()
+                body = prepared(h, call, awaited, dead) if h is not None else None
                 if body is not None:
                     if isinstance(s, ast.Assign):
                         tg = s.targets
@@ -726,9 +861,12 @@ def _inline_helpers(fn, helpers: Dict[str, ast.AST], in_class: bool):
                         done = True
             if not done:
                 # expression-level: a helper whose body is a single `return E`
+                awaited_calls = {id(n.value) for n in ast.walk(s) if isinstance(n, ast.Await) and isinstance(n.value, ast.Call)}
                 for c in [n for n in ast.walk(s) if isinstance(n, ast.Call)]:
                     h = target_of(c)
-                    if h is None or isinstance(h, ast.AsyncFunctionDef):
+                    if h is None or isinstance(h, ast.AsyncFunctionDef) != (id(c) in awaited_calls):
+                        continue
+                    if any(isinstance(x, (ast.Yield, ast.YieldFrom)) for x in ast.walk(h)):
                         continue
                     g = copy.deepcopy(h)
                     _strip(g)
@@ -737,9 +875,25 @@ def _inline_helpers(fn, helpers: Dict[str, ast.AST], in_class: bool):
                         if m is None:
                             continue
                         e = g.body[0].value
-                        ok = all(is_pure(a) or sum(1 for n in ast.walk(e) if isinstance(n, ast.Name) and n.id == p) <= 1 for p, a in m.items())
+                        impure = [p for p, a in m.items() if not is_pure(a) and any(isinstance(n, ast.Name) and n.id == p for n in ast.walk(e))]
+                        anchor = [n for n in ast.walk(s) if isinstance(n, ast.Await) and n.value is c][0] if id(c) in awaited_calls else c
+                        ok = not impure or _early(s, anchor)
                         if ok and not any(isinstance(x, ast.Name) and isinstance(x.ctx, ast.Store) for x in ast.walk(e)):
-                            _replace_node(s, c, _subst(e, m))
+                            if impure:
+                                # the arguments are evaluated, in order, before the body: bind the impure ones first
+                                kk = next(counter)
+                                names_in_order = [p for p in m if p in impure]
+                                for j, p in enumerate(names_in_order):
+                                    tname = f"_a{kk}_{j}"
+                                    out.append(ast.Assign(targets=[ast.Name(id=tname, ctx=ast.Store())], value=m[p]))
+                                    m[p] = ast.Name(id=tname, ctx=ast.Load())
+                            new_e = _subst(e, m)
+                            if id(c) in awaited_calls:
+                                # `await helper(...)` with `async def helper: return E`  ==  `E` evaluated in place (E holds its own awaits)
+                                aw = [n for n in ast.walk(s) if isinstance(n, ast.Await) and n.value is c][0]
+                                _replace_node(s, aw, new_e)
+                            else:
+                                _replace_node(s, c, new_e)
                 out.append(s)
         return out
 
@@ -784,7 +938,7 @@ def _split_or_guards(fn):
 
 def _split_loop_vars(fn):
     order = {id(n): i for i, n in enumerate(_dfs(fn))}
-    counter = itertools.count()
+    counter = _fresh
     loops = [n for n in _dfs(fn) if isinstance(n, (ast.For, ast.AsyncFor))]
     for lp in loops:
         inside = {id(x) for x in ast.walk(lp)}
@@ -814,6 +968,50 @@ def _split_loop_vars(fn):
                     x.id = new
 
 
+def _split_webs(fn):
+    """`x = E` that unconditionally overwrites a local whose old value is never read afterwards starts a variable of its own
+    (so `m = load(m)` and `mod = load(m)` are the same program).  Applied to plain statements of a block; the rest of the
+    block - and nothing else - may read the new value."""
+    counter = _fresh
+    changed = True
+    while changed:
+        changed = False
+        params = {a.arg for a in fn.args.args + fn.args.kwonlyargs} if isinstance(fn, _FUNCS) else set()
+        for owner, fld in [(o, f_) for n in _dfs(fn) if not isinstance(n, ast.expr) for o, f_ in _bodies(n)]:
+            stmts = getattr(owner, fld)
+            for i, s in enumerate(stmts):
+                if not (isinstance(s, ast.Assign) and len(s.targets) == 1 and isinstance(s.targets[0], ast.Name)):
+                    continue
+                x = s.targets[0].id
+                if x.startswith("_w") or x.startswith("_c") or x.startswith("_f"):
+                    continue
+                before = [n for t in stmts[:i] for n in ast.walk(t) if isinstance(n, ast.Name) and n.id == x]
+                outside = [n for n in ast.walk(fn) if isinstance(n, ast.Name) and n.id == x and not any(n is m for t in stmts for m in ast.walk(t))]
+                loops_ = [a for a in (_ancestors(fn, owner) + [owner]) if isinstance(a, (ast.For, ast.AsyncFor)) and any(isinstance(t, ast.Name) and t.id == x for t in ast.walk(a.target))]
+                is_target = bool(loops_)
+                defined_before = bool(before) or is_target or x in params
+                if not defined_before:
+                    continue
+                # the old value must be dead: outside this block the name may only occur as an enclosing loop's own target
+                if is_target:
+                    outside = [n for n in outside if not any(n is m for m in ast.walk(loops_[-1].target))]
+                if outside:
+                    continue
+                if x in params and not before and not is_target:
+                    pass  # a parameter overwritten: allowed, the parameter keeps its name up to here
+                # later stores in the block would need a further split: handle one at a time, the later ones in later rounds
+                new = f"_w{next(counter)}"
+                s.targets[0].id = new
+                for t in stmts[i + 1:]:
+                    for n in ast.walk(t):
+                        if isinstance(n, ast.Name) and n.id == x:
+                            n.id = new
+                changed = True
+                break
+            if changed:
+                break
+
+
 def _dfs(node):
     yield node
     for ch in ast.iter_child_nodes(node):
@@ -840,6 +1038,52 @@ def _ancestors(root, target):
 
 # ---- the normal form ----------------------------------------------------------------------------------------------------
 
+def _format_to_fstring(fn):
+    """`"a {x} b".format(x=E)` with plain `{name}` fields only -> f"a {E} b" (fields are evaluated left to right in both)."""
+    import string
+
+    for n in list(ast.walk(fn)):
+        if isinstance(n, ast.Call) and isinstance(n.func, ast.Attribute) and n.func.attr == "format" and isinstance(n.func.value, ast.Constant) \
+                and isinstance(n.func.value.value, str) and not n.args and n.keywords and all(k.arg for k in n.keywords):
+            kw = {k.arg: k.value for k in n.keywords}
+            try:
+                parts = list(string.Formatter().parse(n.func.value.value))
+            except ValueError:
+                continue
+            if any(f is not None and (f not in kw or spec or conv) for _, f, spec, conv in parts):
+                continue
+            used = [f for _, f, _, _ in parts if f is not None]
+            if sorted(used) != sorted(kw) or [k.arg for k in n.keywords] != used and not all(is_pure(v) for v in kw.values()):
+                continue
+            values = []
+            for lit, f, _, _ in parts:
+                if lit:
+                    values.append(ast.Constant(value=lit))
+                if f is not None:
+                    values.append(ast.FormattedValue(value=kw[f], conversion=-1, format_spec=None))
+            new = ast.JoinedStr(values=values)
+            n.__class__ = ast.JoinedStr
+            n.__dict__.clear()
+            n.__dict__.update(new.__dict__)
+
+
+def _fold_constants(fn):
+    """`"text" or X` is "text"; `None or X` is X (the constant operand decides without evaluating anything)."""
+    changed = True
+    while changed:
+        changed = False
+        for n in ast.walk(fn):
+            if isinstance(n, ast.BoolOp) and isinstance(n.values[0], ast.Constant):
+                c = n.values[0].value
+                decides = bool(c) if isinstance(n.op, ast.Or) else not bool(c)
+                new = n.values[0] if decides else (n.values[1] if len(n.values) == 2 else ast.BoolOp(op=n.op, values=n.values[1:]))
+                n.__class__ = type(new)
+                n.__dict__.clear()
+                n.__dict__.update(new.__dict__)
+                changed = True
+                break
+
+
 def _simplify_tests(fn):
     """`x in (a,)`-style trivia is left alone; only boolean constants folded after substitution."""
     for n in ast.walk(fn):
@@ -851,21 +1095,25 @@ def _simplify_tests(fn):
 
 
 def normal_form(fn, signatures: Optional[Dict[str, List[str]]] = None, helpers: Optional[Dict[str, ast.AST]] = None, in_class: bool = False):
+    global _fresh
+    _fresh = itertools.count()
     g = copy.deepcopy(fn)
     g.decorator_list = []
     _strip(g)
-    if helpers:
-        _inline_helpers(g, helpers, in_class)
-        _strip(g)
-    for _ in range(4):
+    for _ in range(5):
         before = ast.dump(g)
         _expand_ifexp(g)
         _split_or_guards(g)
         _guards(g)
         _flip(g)
         _merge_ifs(g)
+        if helpers:
+            # after the structural rewrites, so that both dresses of a function offer the same call sites
+            _inline_helpers(g, helpers, in_class)
+            _strip(g)
         _expand_setdefault(g)
         _hoist_comprehensions(g)
+        _expand_extend(g)
         _inline_temps(g)
         _split_tuple_assign(g)
         _coalesce_copies(g)
@@ -873,9 +1121,12 @@ def normal_form(fn, signatures: Optional[Dict[str, List[str]]] = None, helpers: 
         _drop_tail_returns(g)
         _strip(g)
         _calls_style(g, signatures or {})
+        _format_to_fstring(g)
+        _fold_constants(g)
         _simplify_tests(g)
         if ast.dump(g) == before:
             break
+    _split_webs(g)
     _split_loop_vars(g)
     ast.fix_missing_locations(g)
     return g
